@@ -1,10 +1,11 @@
 /- driver family `trimesh`: the row-grouping loop of BHJM_magnet_trimesh on abstract rows
    (mesh id, core value, polarization value as integers; the inside test as a truth table mesh × row) -/
 import MagpyVerif.Model.TrimeshBatch
-import Driver.Parse
+import MagpyVerif.Model.TrimeshSum
+import Driver.KernFam
 
 namespace Driver.TrimeshFam
-open MagpyVerif.Trimesh Driver
+open MagpyVerif MagpyVerif.Trimesh MagpyVerif.Kern Driver Driver.KernFam
 
 def run : P String := do
   match (← tok) with
@@ -19,6 +20,27 @@ def run : P String := do
       let rs : List (Row Nat Nat Int) := rows.zipIdx.map fun ((m, c, p), i) => { mesh := m, obs := i, pol := p, core := c }
       let inside (m : Nat) (i : Nat) : Bool := bits.getD (m * n + i) 0 == 1
       pure ("addinside " ++ " ".intercalate ((addInside inside rs).map toString))
+  | "batch" => do
+      -- the whole BHJM_magnet_trimesh in IEEE double: field, n rows (mesh id, faces, observer, polarization), K x n inside bits
+      let f ← field
+      let n ← nat
+      let k ← nat
+      let rows ← many n (do
+        let m ← nat
+        let nf ← nat
+        let fs ← many nf (do pure ((← v3), (← v3), (← v3)))
+        let o ← v3
+        let p ← v3
+        pure (m, ({ faces := fs, obs := o, pol := p } : MeshRow Float)))
+      let bits ← many (k * n) nat
+      let rs := rows.map (·.2)
+      -- observers are identified by their row index through the bit table: look the row up by its position
+      let idOf (r : MeshRow Float) : Nat := ((rows.zipIdx.find? fun ((_, r'), _) => r'.obs.x.toBits == r.obs.x.toBits && r'.obs.y.toBits == r.obs.y.toBits && r'.obs.z.toBits == r.obs.z.toBits).map (·.2)).getD 0
+      let meshOf (r : MeshRow Float) : Nat := (rows.getD (idOf r) (0, r)).1
+      let insideFn (m : Nat) (o : V3 Float) : Bool :=
+        let i := ((rows.zipIdx.find? fun ((_, r'), _) => r'.obs.x.toBits == o.x.toBits && r'.obs.y.toBits == o.y.toBits && r'.obs.z.toBits == o.z.toBits).map (·.2)).getD 0
+        bits.getD (m * n + i) 0 == 1
+      pure (" ".intercalate ((bhjmTrimesh f meshOf insideFn rs).map out))
   | t => throw s!"unknown trimesh command {t}"
 
 def step (line : String) : String :=
